@@ -174,6 +174,7 @@ apply(int a)
 }
 
 static char path[400];
+static int start_failed;      /* the start state holds an endpoint that failed on purpose: later failures of its peer are not judged by the honest-failure oracle */
 static int start_has_reneg;   /* the start state already contains a renegotiation request */
 static char case_start[700];
 
@@ -195,7 +196,7 @@ explore(int remaining)
 		/* both endpoints are honest and the transport is faithful: no engine may ever fail */
 		{
 			int ec = br_ssl_engine_last_error(W.c.eng), es = br_ssl_engine_last_error(W.s.eng);
-			if (ec != 0 || es != 0) {
+			if ((ec != 0 || es != 0) && !start_failed) {
 				char key[80], what[200];
 				int reneg = start_has_reneg || strstr(path, "renegotiate") != NULL;
 				int e = ec ? ec : es;
@@ -325,7 +326,7 @@ main(int argc, char **argv)
 			continue;
 		}
 		/* data-phase start states, built by scripted prefixes */
-		for (phase = 0; phase < 17; phase ++) {
+		for (phase = 0; phase < 19; phase ++) {
 			world_snap base;
 			world_take(&base);
 			switch (phase) {
@@ -358,13 +359,31 @@ main(int argc, char **argv)
 			/* close / renegotiation requested while an application record is partly sent */
 			case 15: tp_act_write(&W.c, 10); tp_act_flush(&W.c, 0); tp_act_sendrec(&W.c, &W.c2s, 3); tp_act_close(&W.c); break;
 			case 16: tp_act_write(&W.s, 10); tp_act_flush(&W.s, 0); tp_act_sendrec(&W.s, &W.s2c, 3); tp_act_reneg(&W.s); break;
+			/* an endpoint that has failed (a record that does not authenticate) while its peer goes on: closed is
+			   permanent and the first error is retained whatever is called afterwards (judged by tp_check) */
+			case 17: case 18: {
+				static const unsigned char junk[37] = { 23, 3, 3, 0, 32, 1, 2, 3, 4, 5, 6, 7, 8, 9, 10, 11, 12, 13, 14, 15, 16, 17, 18, 19, 20, 21, 22, 23, 24, 25, 26, 27, 28, 29, 30, 31, 32 };
+				unsigned char rec[37];
+				tp_ep *v = phase == 17 ? &W.c : &W.s, *o2 = phase == 17 ? &W.s : &W.c;
+				tp_fifo *f = phase == 17 ? &W.s2c : &W.c2s;
+				memcpy(rec, junk, sizeof rec);
+				rec[1] = (unsigned char)(mode_ver[mode] >> 8); rec[2] = (unsigned char)mode_ver[mode];
+				tp_act_write(v, 10);                  /* the victim has unflushed data of its own */
+				tp_act_write(o2, 10); tp_act_flush(o2, 0);   /* and an honest record is on its way to it, behind the junk */
+				tp_fifo_put(f, rec, sizeof rec);
+				tp_act_sendrec(o2, f, 100000);
+				tp_act_recvrec(v, f, 100000); tp_act_recvrec(v, f, 100000); tp_act_recvrec(v, f, 100000);
+				break;
+			}
 			case 9: tp_act_reneg(&W.s); tp_act_sendrec(&W.s, &W.s2c, 100000);
 				tp_act_recvrec(&W.c, &W.s2c, 100000); tp_act_recvrec(&W.c, &W.s2c, 100000); break;   /* HelloRequest received */
 			}
 			if ((startno ++ % nworkers) == worker) {
 				start_has_reneg = phase == 8 || phase == 9 || phase == 16;
+				start_failed = phase == 17 || phase == 18;
 				explore_from_here(phase >= 10 ? depth + 1 : depth, "data-phase", phase);
 				start_has_reneg = 0;
+				start_failed = 0;
 			}
 			world_restore(&base);
 			world_free(&base);
